@@ -139,48 +139,48 @@ theorem phase_mpi (g : Graph) (S C : List Nat) (hC : PhaseOK g 1 S C) (srch : Na
     exact reduceMin_pred _ (fun i L x _ h2 h3 => hsound i L x (by omega) h3) (hcov r hrP)
 
 open SignedAlgoL in
-theorem mpi_general (g : Graph) (hs : g.simpleB = true) (hp : g.positiveB = true)
+theorem mpi_general (g : Graph) (ord : List Nat) (hs : g.simpleB = true) (hp : g.positiveB = true)
     (pk : PickFam) (hpk : ∀ i L, PickOK (pk i L)) (S : List Nat) (hS : StrictSorted S) (hSm : ∀ e ∈ S, e < g.m)
     (hex : ∃ Z, EvenSet g Z ∧ dotPar Z S = true) (P : Nat) (hP : 1 ≤ P)
     (scheds : Nat → Sched) (hcov : SlicesCovered (if S.length < g.n then S.length else g.n) P scheds)
     (t : RTree) (ht : TreeOK P t) :
-    PhaseFound g S (if S.length < g.n then mpiPhase (hiddenIndexTbb g pk S S) scheds t
-      else mpiPhase (fun v L => searchSigned g (pk v L) S [] v true v false L) scheds t) := by
+    PhaseFound g S (if S.length < g.n then mpiPhase (hiddenIndexTbb g ord pk S S) scheds t
+      else mpiPhase (fun v L => searchSigned g ord (pk v L) S [] v true v false L) scheds t) := by
   obtain ⟨C, hC⟩ := phaseOK_exists g hp S hex
   by_cases hn : S.length < g.n
   · rw [if_pos hn] at hcov ⊢
     exact phase_mpi g S C hC _ S.length
-      (fun i L r _ h => hid_sound g hs hp pk hpk S hS hSm S (List.Perm.refl _) i L r h)
-      (hid_complete g hs hp pk hpk S hS hSm S (List.Perm.refl _) C hC) P hP scheds hcov t ht
+      (fun i L r _ h => hid_sound g ord hs hp pk hpk S hS hSm S (List.Perm.refl _) i L r h)
+      (hid_complete g ord hs hp pk hpk S hS hSm S (List.Perm.refl _) C hC) P hP scheds hcov t ht
   · rw [if_neg hn] at hcov ⊢
-    exact phase_mpi g S C hC _ g.n (fun i L r hi h => allv_sound g hs hp pk hpk S hS i hi L r h)
-      (allv_complete g hs hp pk hpk S hS C hC) P hP scheds hcov t ht
+    exact phase_mpi g S C hC _ g.n (fun i L r hi h => allv_sound g ord hs hp pk hpk S hS i hi L r h)
+      (allv_complete g ord hs hp pk hpk S hS C hC) P hP scheds hcov t ht
 
 end MpiAlgoL
 
 /-- **one phase of `mcb_sva_signed_mpi`**, every rank count -/
-theorem signedPhaseSearchMpi_ok (g : Graph) (hs : g.simpleB = true) (hp : g.positiveB = true)
+theorem signedPhaseSearchMpi_ok (g : Graph) (ord : List Nat) (hs : g.simpleB = true) (hp : g.positiveB = true)
     (pk : PickFam) (hpk : ∀ i L, PickOK (pk i L)) (S : List Nat) (hS : StrictSorted S) (hSm : ∀ e ∈ S, e < g.m)
     (hex : ∃ Z, EvenSet g Z ∧ dotPar Z S = true) (P : Nat) (hP : 1 ≤ P)
     (scheds : Nat → Sched) (hcov : SlicesCovered (if S.length < g.n then S.length else g.n) P scheds)
     (t : RTree) (ht : TreeOK P t) :
-    SignedAlgoL.PhaseFound g S (signedPhaseSearchMpi g pk S scheds t) := by
+    SignedAlgoL.PhaseFound g S (signedPhaseSearchMpi g ord pk S scheds t) := by
   match S, hS, hSm, hex, hcov with
-  | [], hS, hSm, hex, hcov => exact MpiAlgoL.mpi_general g hs hp pk hpk [] hS hSm hex P hP scheds hcov t ht
+  | [], hS, hSm, hex, hcov => exact MpiAlgoL.mpi_general g ord hs hp pk hpk [] hS hSm hex P hP scheds hcov t ht
   | [e], hS, hSm, hex, hcov =>
     obtain ⟨C, hC⟩ := phaseOK_exists g hp [e] hex
-    show SignedAlgoL.PhaseFound g [e] (singleEdgeTbb g pk e)
+    show SignedAlgoL.PhaseFound g [e] (singleEdgeTbb g ord pk e)
     rw [SignedAlgoL.singleEdgeTbb_eq]
-    obtain ⟨j, hj, hcomp⟩ := SignedAlgoL.hid_complete g hs hp pk hpk [e] hS hSm [e] (List.Perm.refl _) C hC
+    obtain ⟨j, hj, hcomp⟩ := SignedAlgoL.hid_complete g ord hs hp pk hpk [e] hS hSm [e] (List.Perm.refl _) C hC
     have hj0 : j = 0 := by simp at hj; omega
     subst hj0
     obtain ⟨c, hc⟩ := hcomp none (fun l hl => by cases hl)
     apply SignedAlgoL.phaseFound_of g [e] C hC
     · rw [hc]; rfl
     · intro r hr
-      exact SignedAlgoL.hid_sound g hs hp pk hpk [e] hS hSm [e] (List.Perm.refl _) 0 none r hr
+      exact SignedAlgoL.hid_sound g ord hs hp pk hpk [e] hS hSm [e] (List.Perm.refl _) 0 none r hr
   | a :: b :: rest, hS, hSm, hex, hcov =>
-    exact MpiAlgoL.mpi_general g hs hp pk hpk (a :: b :: rest) hS hSm hex P hP scheds hcov t ht
+    exact MpiAlgoL.mpi_general g ord hs hp pk hpk (a :: b :: rest) hS hSm hex P hP scheds hcov t ht
 
 /-- **`mcb_sva_signed_mpi`, end to end**: for every `P ≥ 1`, what rank 0 emits is a minimum cycle basis of the caller's
 graph, the returned value its weight, the number of cycles `m - n + c` -/
@@ -194,7 +194,7 @@ theorem mcbSignedMpi_correct (g : Graph) (hs : g.simpleB = true) (hp : g.positiv
   have hd := C16.c16_exact_domain g order hs hp ho
   have hp0 : (perm.map fun i => [i]).Perm (unitSupports (createIndex g order).dim) := hperm.map _
   exact SignedAlgoL.mcb_correct_of_core g hs hp order ho .mpi _ hp0 _
-    (fun k S hS hSm hex => signedPhaseSearchMpi_ok _ hd.simple hd.positive (pick k) (hpick k) S hS hSm
+    (fun k S hS hSm hex => signedPhaseSearchMpi_ok _ _ hd.simple hd.positive (pick k) (hpick k) S hS hSm
       hex P hP (scheds k S) (hcov k S) (trees k S) (ht k S))
 
 /-- the schedules of the per-rank TBB lookups of the tree variants: rank `r` covers its own candidate list -/
